@@ -38,6 +38,8 @@ const (
 	maxBlockGas = 10000000 // consensus.MaxBlockGas written down, not imported
 	maturity    = 10       // consensus.CoinbasePendingBlockNumber
 	nBulk       = 32
+	nFill       = 16       // = proposal.batchApplyNum
+	fillMark    = 100      // in a case: "f1..f16 are submitted here"
 	heavyIn     = 62000000 // value of the inputs of gas-heavy transactions: fee 61M buys the maximal 300000 gas
 )
 
@@ -62,11 +64,12 @@ type poolTx struct {
 }
 
 var (
-	net    *labnet.Net
-	states []*chainState
-	alpha  []*poolTx // t1 t2 t3 t4 t5 g1 g2
-	bulk   []*poolTx // b1..b32
-	byID   map[bc.Hash]*poolTx
+	net     *labnet.Net
+	states  []*chainState
+	alpha   []*poolTx // t1 t2 t3 t4 t5 g1 g2
+	bulk    []*poolTx // b1..b32
+	fillers []*poolTx // f1..f16
+	byID    map[bc.Hash]*poolTx
 	// confirmed unspent outputs every state has: output id -> height of the coinbase that made it (0 = normal)
 	confirmedOuts map[bc.Hash]uint64
 	outNames      map[bc.Hash]string
@@ -121,10 +124,15 @@ func measure(tx *types.Tx, height uint64) int64 {
 
 // heavy builds a transaction spending in whose validation uses exactly `target` gas (one storage gas per
 // byte of ballast in its output program).
-func heavy(in labnet.Out, target int64, tag byte) *types.Tx {
+func heavy(in labnet.Out, target int64, tag byte, childOut bool) *types.Tx {
 	n := 1000
 	for try := 0; try < 40; try++ {
-		tx := wire(labnet.Tx([]labnet.Out{in}, []*types.TxOutput{btm(500000, bigProg(n, tag))}))
+		outs := []*types.TxOutput{btm(500000, bigProg(n, tag))}
+		if childOut {
+			// a second, small output for a cheap child transaction
+			outs = append(outs, btm(400000, labnet.Prog(tag)))
+		}
+		tx := wire(labnet.Tx([]labnet.Out{in}, outs))
 		g := measure(tx, 1)
 		if g == target {
 			return tx
@@ -291,10 +299,25 @@ func world() {
 		if i == nBulk-1 {
 			target = int64(maxBlockGas-430000) - per*(nBulk-1)
 		}
-		bulk = append(bulk, &poolTx{Name: fmt.Sprintf("b%d", i+1), Tx: heavy(heavyOuts[i], target, byte(i+1))})
+		bulk = append(bulk, &poolTx{Name: fmt.Sprintf("b%d", i+1), Tx: heavy(heavyOuts[i], target, byte(i+1), false)})
 	}
-	alpha = append(alpha, &poolTx{Name: "g1", Tx: heavy(heavyOuts[32], 215001, 0xe1)}, &poolTx{Name: "g2", Tx: heavy(heavyOuts[33], 214999, 0xe2)})
-	for _, p := range append(append([]*poolTx{}, alpha...), bulk...) {
+	g1 := heavy(heavyOuts[32], 215001, 0xe1, true)
+	g2 := heavy(heavyOuts[33], 214999, 0xe2, true)
+	alpha = append(alpha, &poolTx{Name: "g1", Tx: g1}, &poolTx{Name: "g2", Tx: g2})
+	// cheap children of the gas-heavy transactions (only used in the gas scenarios): c1 spends g1.out1, c2 spends g2.out1
+	cheap := func(in labnet.Out, tag byte) *types.Tx {
+		return wire(labnet.Tx([]labnet.Out{in}, []*types.TxOutput{btm(in.Amount()-200000, labnet.Prog(tag))}))
+	}
+	alpha = append(alpha, &poolTx{Name: "c1", Tx: cheap(labnet.Out{Tx: g1, Idx: 1}, 0x76)}, &poolTx{Name: "c2", Tx: cheap(labnet.Out{Tx: g2, Idx: 1}, 0x77)})
+	// fillers: a chain of 16 cheap transactions f1 <- f2 <- ... on a confirmed output; submitted as one run they push
+	// whatever follows them into the proposer's next batch of 16
+	prev := small[2]
+	for i := 0; i < nFill; i++ {
+		f := cheap(prev, byte(0x80+i))
+		fillers = append(fillers, &poolTx{Name: fmt.Sprintf("f%d", i+1), Tx: f})
+		prev = labnet.Out{Tx: f, Idx: 0}
+	}
+	for _, p := range append(append(append([]*poolTx{}, alpha...), bulk...), fillers...) {
 		if p.Tx == nil {
 			continue
 		}
@@ -337,6 +360,10 @@ func txFor(st *chainState, i int) *poolTx {
 func describe(h []int) interface{} {
 	var names []string
 	for _, i := range h[2:] {
+		if i == fillMark {
+			names = append(names, fmt.Sprintf("f1..f%d", nFill))
+			continue
+		}
 		names = append(names, alpha[i].Name)
 	}
 	d := map[string]interface{}{"chain_state": states[h[0]].Name, "submitted_in_order": names}
@@ -389,6 +416,10 @@ func runCase(h []int, _ json.RawMessage) (out xplore.Out) {
 		submitted = append(submitted, bulk...)
 	}
 	for _, i := range h[2:] {
+		if i == fillMark {
+			submitted = append(submitted, fillers...)
+			continue
+		}
 		submitted = append(submitted, txFor(st, i))
 	}
 	for _, p := range submitted {
@@ -707,6 +738,33 @@ func main() {
 	} else {
 		add(5, 1, sequences(gasAlpha, 3))
 	}
+	// late-child scenarios: after the bulk (two full proposer batches) a head that fits / fits exactly / overflows
+	// (the third batch), then either nothing or 16 fillers (which push the rest into the fourth batch), then cheap
+	// children of the gas-heavy transactions: child of the transaction that did not fit, child of the last one that
+	// fitted, in the same batch and in a later batch
+	heads := [][]int{{5}, {6}, {5, 6}, {6, 5}, {0, 5, 6}, {0, 6, 5}, {5, 0, 6}, {6, 0, 5}, {5, 6, 0}, {6, 5, 0}}
+	tails := [][]int{{7}, {8}, {7, 8}}
+	if thorough {
+		heads = sequences([]int{0, 5, 6}, 3)[1:]
+		tails = append(tails, []int{8, 7})
+	}
+	var late [][]int
+	for _, hd := range heads {
+		for _, fill := range []bool{false, true} {
+			for _, tl := range tails {
+				c := append([]int{}, hd...)
+				if fill {
+					c = append(c, fillMark)
+				}
+				late = append(late, append(c, tl...))
+			}
+		}
+	}
+	add(5, 1, late)
+	if thorough {
+		add(2, 1, late)
+	}
+	run.Set("late_child_scenarios", len(late))
 	st := xplore.Flat(run, spec, items)
 	run.Set("states", st.States)
 	run.Set("transitions", st.Transitions)
